@@ -550,6 +550,7 @@ class Explorer:
 
     # ------------------------------------------------------------------ driver
     def run(self, fn, catch=Exception):
+        self.paths = []
         self.work = [[]]
         t0 = time.time()
         prev = _CUR[0]
@@ -581,22 +582,21 @@ class Explorer:
 
     # ------------------------------------------------------------------ obligations
     def prove(self, path, goal, extra_assume=()):
-        """Is `goal` implied on `path`?  Returns ('unsat'|'sat'|'unknown', model)."""
-        if not isinstance(goal, SymBool):
-            if goal:
-                return 'unsat', None
-            # goal is literally False: violated iff the path is feasible
-            conds = path.conds() if path is not None else []
-            atoms = path.atoms() if path is not None else set()
-            return self.check(conds, atoms)
+        """Is `goal` implied on `path` (under extra assumptions)?  Returns ('unsat'|'sat'|'unknown', model)."""
         conds = (path.conds() if path is not None else [])
-        atoms = set(path.atoms() if path is not None else ()) | goal.atoms
+        atoms = set(path.atoms() if path is not None else ())
         for a in extra_assume:
             if isinstance(a, SymBool):
                 conds.append(a.z)
                 atoms |= a.atoms
             elif a is False:
                 return 'unsat', None
+        if not isinstance(goal, SymBool):
+            if goal:
+                return 'unsat', None
+            # goal is literally False: violated iff the (assumed) path is feasible
+            return self.check(conds, atoms)
+        atoms |= goal.atoms
         return self.check(conds + [z3.Not(goal.z)], atoms)
 
     def prove_all(self, path, goals, extra_assume=()):
